@@ -84,6 +84,33 @@ func ConsensusStateKey(height exported.Height) (key []byte) {
 	return key
 }
 
+// ParseConsensusStateKey is the inverse of ConsensusStateKey. The 16 bytes after
+// "consensusStates/" are the big-endian revision number and revision height; they are
+// binary and may contain the separator byte '/', so such a key must never be split on '/'.
+func ParseConsensusStateKey(key []byte) (revisionNumber, revisionHeight uint64, ok bool) {
+	prefix := KeyConsensusStatePrefix + "/"
+	if len(key) != len(prefix)+16 || string(key[:len(prefix)]) != prefix {
+		return 0, 0, false
+	}
+	return sdk.BigEndianToUint64(key[len(prefix) : len(prefix)+8]), sdk.BigEndianToUint64(key[len(prefix)+8:]), true
+}
+
+// ParseFullClientKey splits a key of the format "clients/{chainName}/{path}" into the chain
+// name and the path inside the client store. Chain names cannot contain '/', the path may.
+func ParseFullClientKey(key []byte) (chainName string, path []byte, ok bool) {
+	prefix := string(KeyClientStorePrefix) + "/"
+	if len(key) < len(prefix) || string(key[:len(prefix)]) != prefix {
+		return "", nil, false
+	}
+	rest := key[len(prefix):]
+	for i, b := range rest {
+		if b == '/' {
+			return string(rest[:i]), rest[i+1:], true
+		}
+	}
+	return "", nil, false
+}
+
 // NextSequenceSendPath defines the next send sequence counter store path
 func NextSequenceSendPath(srcChain, dstChain string) string {
 	return fmt.Sprintf("%s/%s", KeyNextSeqSendPrefix, packetPath(srcChain, dstChain))
